@@ -785,6 +785,17 @@ def r17_14(chk):
                 chk.unresolved("R17.14", k, m.loc(c), f"conditions expression {norm(cond)} not understood")
                 continue
             w = _wraps_attributes(fnode, cond.id)
+            if w is None:
+                # the wrapping may live in a helper the mapping is handed to (one level)
+                for hc in walk_no_nested(fnode):
+                    if isinstance(hc, ast.Call) and hc.lineno < c.lineno and any(isinstance(a_, ast.Name) and a_.id == cond.id for a_ in list(hc.args) + [kw.value for kw in hc.keywords]):
+                        hname = (call_name(hc) or "").split(".")[-1]
+                        helper = next((f_ for f_, q_ in m.qual.items() if isinstance(f_, ast.FunctionDef) and q_.split(".")[-1] == hname), None)
+                        if helper is not None:
+                            for hp in params_of(helper):
+                                hw = _wraps_attributes(helper, hp)
+                                if hw is not None:
+                                    w = hc
             chk.decide(w is not None and w.lineno < c.lineno, "R17.14", k, m.loc(c), f"`{cond.id}['attributes']` wrapped as %...% before the call", f"`{cond.id}` can carry the caller's `attributes` value but reaches the SQL builder unwrapped: this function matches the whole column (=) where get_features_matching matches a fragment (LIKE %..%), e.g. num_matches(attributes='Hello') == 0 while get_features_matching(attributes='Hello') yields the record")
     # the wrapping decision is the same wherever it is taken (a query and the count for it must not disagree)
     guards = []
